@@ -80,11 +80,33 @@ class VSock:
         s = self.backlog.pop(0)
         return s, ("10.0.0.2", 40000)
 
-    def recv(self, n):
+    def recv(self, n, flags=0):
         x = self.inq.pop(0)
         if isinstance(x, BaseException):
             raise x
+        if n and len(x) > n:                 # a read returns at most the bytes asked for
+            self.inq.insert(0, x[n:])
+            x = x[:n]
         return x
+
+    # the rest of the socket API a refactoring of the node might reasonably use
+    def shutdown(self, how):
+        pass
+
+    def getpeername(self):
+        return self.connected_to or ("10.0.0.2", 40000)
+
+    def settimeout(self, t):
+        pass
+
+    def gettimeout(self):
+        return 0.0
+
+    def sendall(self, b):
+        data = bytes(b)
+        while data:
+            k = self.send(data)
+            data = data[k:]
 
     def recv_into(self, buf, nbytes=0):
         x = self.recv(nbytes or len(buf))
@@ -92,7 +114,7 @@ class VSock:
         buf[:n] = x
         return n
 
-    def send(self, b):
+    def send(self, b, flags=0):
         if self.send_plan:
             k = self.send_plan.pop(0)
             if isinstance(k, BaseException):
